@@ -3,10 +3,28 @@
 use crate::tr_core::*;
 use crate::types::*;
 
+/// `t.as_ref()` / `t`: the name of the variable
+fn c_arg(e: &syn::Expr) -> Option<String> {
+    match e {
+        syn::Expr::MethodCall(m) if m.method == "as_ref" && m.args.is_empty() => c_arg(&m.receiver),
+        syn::Expr::Path(p) if p.path.segments.len() == 1 => Some(p.path.segments[0].ident.to_string()),
+        syn::Expr::Paren(p) => c_arg(&p.expr),
+        syn::Expr::Reference(r) => c_arg(&r.expr),
+        _ => None,
+    }
+}
+
 impl<'a> Tr<'a> {
     pub fn tr_method(&mut self, m: &syn::ExprMethodCall, env: &Env, _expected: Option<&Ty>) -> R<Val> {
         let name = m.method.to_string();
         let args: Vec<&syn::Expr> = m.args.iter().collect();
+        // `xs.iter().filter_map(|t| F(t.as_ref()).transpose()).collect::<Result<Vec<_>, _>>()`: the values `F` yields, in
+        // order, `Ok(None)` dropped, the first `Err` wins (Iterator::collect into a Result stops at the first error)
+        if name == "collect" && args.is_empty() {
+            if let Some(v) = self.tr_collect_idiom(m, env)? {
+                return Ok(v);
+            }
+        }
         if m.turbofish.is_some() {
             return self.unsup(format!("turbofish on `.{}`", name));
         }
@@ -69,6 +87,11 @@ impl<'a> Tr<'a> {
         // ----- identity-like adapters on anything
         match (name.as_str(), &recv.ty) {
             ("clone", _) | ("to_owned", Ty::Tiny(_)) => {
+                nargs(self, 0)?;
+                return Ok(recv);
+            }
+            ("as_ref", Ty::Infer) => {
+                // an element of a list whose element type is not known (the empty slice `&[]`)
                 nargs(self, 0)?;
                 return Ok(recv);
             }
@@ -171,6 +194,10 @@ impl<'a> Tr<'a> {
                     nargs(self, 0)?;
                     self.lift(&[recv], Ty::Bool, false, &|a| format!("(List.isEmpty {})", a[0]))
                 }
+                "keys" => {
+                    nargs(self, 0)?;
+                    self.lift(&[recv], Ty::Iter(Box::new(Ty::Tiny(4))), false, &|a| format!("(UL.AMap.keys {})", a[0]))
+                }
                 "get" => {
                     nargs(self, 1)?;
                     let kx = self.tr_expr(args[0], env, Some(&Ty::Tiny(4)))?;
@@ -195,6 +222,12 @@ impl<'a> Tr<'a> {
                 "copied" | "cloned" => {
                     nargs(self, 0)?;
                     Ok(recv)
+                }
+                "map" => {
+                    nargs(self, 1)?;
+                    let (x, body) = self.tr_closure1(args[0], env, (*el).clone())?;
+                    let ty = Ty::Iter(Box::new(body.ty.clone()));
+                    self.lift(&[recv], ty, false, &|a| format!("(List.map (fun {} => {}) {})", x, body.t, a[0]))
                 }
                 _ => self.unsup(format!("iterator method `.{}`", name)),
             },
@@ -222,7 +255,7 @@ impl<'a> Tr<'a> {
                     "to_ascii_titlecase" => ("title", Ty::Tiny(n)),
                     "len" => ("List.length", Ty::Usize),
                     "is_empty" => ("List.isEmpty", Ty::Bool),
-                    "as_str" => {
+                    "as_str" | "as_ref" => {
                         nargs(self, 0)?;
                         return Ok(Val { ty: Ty::Str, ..recv });
                     }
@@ -385,6 +418,17 @@ impl<'a> Tr<'a> {
                 let d = self.default_term(&inner)?;
                 self.lift(&[recv], inner, false, &|a| format!("(Option.getD {} {})", a[0], d))
             }
+            "map_or_else" => {
+                nargs(self, 2)?;
+                // the default is a constructor path (`Vec::new`)
+                let d = match args[0] {
+                    syn::Expr::Path(p) if norm_tokens(p) == "Vec :: new" => "[]".to_string(),
+                    _ => return self.unsup("`map_or_else` default that is not `Vec::new`"),
+                };
+                let (x, body) = self.tr_closure1(args[1], env, inner)?;
+                let ty = body.ty.clone();
+                self.lift(&[recv], ty, false, &|a| format!("(match {} with | some {} => {} | none => {})", a[0], x, body.t, d))
+            }
             "is_some_and" => {
                 nargs(self, 1)?;
                 let (x, body) = self.tr_closure1(args[0], env, inner)?;
@@ -405,6 +449,76 @@ impl<'a> Tr<'a> {
             }
             _ => self.unsup(format!("`.{}` on an Option", name)),
         }
+    }
+
+    fn tr_collect_idiom(&mut self, m: &syn::ExprMethodCall, env: &Env) -> R<Option<Val>> {
+        // turbofish must be `Result<Vec<_>, _>`
+        match &m.turbofish {
+            Some(tf) if norm_tokens(tf).replace(' ', "") == "::<Result<Vec<_>,_>>" => {}
+            _ => return Ok(None),
+        }
+        let fm = match &*m.receiver {
+            syn::Expr::MethodCall(fm) if fm.method == "filter_map" && fm.args.len() == 1 => fm,
+            _ => return Ok(None),
+        };
+        let it = match &*fm.receiver {
+            syn::Expr::MethodCall(it) if it.method == "iter" && it.args.is_empty() => it,
+            _ => return Ok(None),
+        };
+        let list = self.tr_expr(&it.receiver, env, None)?;
+        let elt = match &list.ty {
+            Ty::List(t) => (**t).clone(),
+            _ => return Ok(None),
+        };
+        if self.lean_ty(&elt)? != "Bytes" || list.callres {
+            return self.unsup("the collect idiom over something that is not a list of byte strings");
+        }
+        // the closure: |t| F(t.as_ref()).transpose()
+        let cl = match &fm.args[0] {
+            syn::Expr::Closure(c) if c.inputs.len() == 1 => c,
+            _ => return Ok(None),
+        };
+        let pname = match &cl.inputs[0] {
+            syn::Pat::Ident(pi) => pi.ident.to_string(),
+            _ => return Ok(None),
+        };
+        let tr = match &*cl.body {
+            syn::Expr::MethodCall(t) if t.method == "transpose" && t.args.is_empty() => t,
+            _ => return Ok(None),
+        };
+        let call = match &*tr.receiver {
+            syn::Expr::Call(c) if c.args.len() == 1 => c,
+            _ => return Ok(None),
+        };
+        let arg_ok = match &c_arg(&call.args[0]) {
+            Some(n) => *n == pname,
+            None => false,
+        };
+        if !arg_ok {
+            return Ok(None);
+        }
+        // translate `F(x)` with a fresh variable to learn the target's Lean name and type
+        let x = self.fresh(&pname);
+        let mut env2 = env.clone();
+        env2.insert(pname.clone(), Val::pure_(x.clone(), Ty::Slice));
+        self.pure_only += 1;
+        let fv = self.tr_expr(&syn::Expr::Call(call.clone()), &env2, None);
+        self.pure_only -= 1;
+        let fv = fv?;
+        let inner = match &fv.ty {
+            Ty::ResPE(t) => match &**t {
+                Ty::Opt(u) => (**u).clone(),
+                _ => return self.unsup("the collect idiom: the function does not return Result<Option<_>, _>"),
+            },
+            _ => return self.unsup("the collect idiom: the function does not return Result<Option<_>, _>"),
+        };
+        if fv.eff() {
+            return self.unsup("the collect idiom: effects in the argument");
+        }
+        let f = format!("(fun {} => {})", x, fv.t);
+        let mut out = self.lift(&[list], Ty::ResPE(Box::new(Ty::List(Box::new(inner)))), false, &|a| format!("(collectOpt {} {})", f, a[0]))?;
+        out.callres = true;
+        Ok(Some(out))
     }
 
     /// `x.as_ref()` on a `LanguageIdentifier` is the identity only if the source says so:
